@@ -1,12 +1,531 @@
-/-! Model for property C06 (core-only: no Mathlib import, so the driver links). -/
+import OnetVerif.Model.Util
+/-! Model for property C06: a tree learnt from a peer or rebuilt from its serialised form is the
+same tree (`tree.go`, `overlay.go`, `treestorage.go`, as they are after the `fix:` commits
+a34bf3c, 5aab0d8, 2aafb7f, 9ed8d4a, 9b09732, 6793864).
+
+Tree part — `MakeTreeMarshal`/`TreeMarshalCopyTree` (tree.go:119-131, 335-347), `MakeTree`/
+`MakeTreeFromList` (350-393), `computeSubtreeAggregate` (283-297), `Marshal`/`NewTreeFromMarshal`/
+`BinaryMarshaler`/`BinaryUnmarshaler` (98-179) with the codec as a parameter.
+
+History part — the tree store (treestorage.go: an entry is absent, requested = present-with-nil, or
+holds a tree), the table of parked tree descriptions and the handlers `handleRequestTree`,
+`handleSendTree`, `handleSendTreeMarshal`, `handleRequestRoster`, `handleSendRoster`
+(overlay.go:410-560), plus the local actions that move the store (request, failed request, local
+registration, a live instance, expiry after the grace period).
+
+Identifiers are numbers (0 = the nil UUID).  Keys live in `Nat` with `+` standing for the group
+operation (the harness uses keys `k·G` with known small `k`, so aggregates can be compared).
+Trees are first-child/next-sibling forests.  Core-only. -/
 namespace C06
 
+/-- a server identity as the tree code sees it: its id (`ServerIdentity.ID`) and public key -/
+structure Server where
+  sid : Nat
+  key : Nat
+  deriving DecidableEq, Repr
+
+/-- `Roster`: `ID` and `List`; `tag` stands for everything else that travels with it (suite,
+per-service keys) -/
+structure Roster where
+  id   : Nat
+  list : List Server
+  tag  : Nat := 0
+  deriving DecidableEq, Repr
+
+/-- `Roster.Search`: position and entry of the first server with that id (tree.go:482-489) -/
+def search : List Server → Nat → Option (Nat × Server)
+  | [], _ => none
+  | s :: rest, sid => if s.sid = sid then some (0, s) else (search rest sid).map fun (i, e) => (i + 1, e)
+
+/-- forest of `TreeMarshal` nodes: `TreeNodeID`, `ServerIdentityID`, children, next sibling -/
+inductive TM where
+  | nil
+  | node (nid sid : Nat) (children siblings : TM)
+  deriving DecidableEq, Repr
+
+/-- the top `TreeMarshal`: `TreeID`, `RosterID` and `Children` (exactly the root, if well formed) -/
+structure TreeMarshal where
+  treeId   : Nat
+  rosterId : Nat
+  children : TM
+  deriving DecidableEq, Repr
+
+/-- forest of `TreeNode`s: `ID`, the server (`ServerIdentity`: id and key), `RosterIndex`,
+`PublicAggregateSubTree`, children, next sibling.  `Parent` is implied by the nesting. -/
+inductive TN where
+  | nil
+  | node (nid sid key idx agg : Nat) (children siblings : TN)
+  deriving DecidableEq, Repr
+
+/-- `Tree`: `ID`, `Roster` (nil for a hand-made value without one) and the root -/
+structure Tree where
+  id     : Nat
+  roster : Option Roster
+  root   : TN
+  deriving DecidableEq, Repr
+
+def TM.len : TM → Nat
+  | .nil => 0
+  | .node _ _ _ s => 1 + s.len
+
+/-- `TreeMarshalCopyTree` -/
+def copyTree : TN → TM
+  | .nil => .nil
+  | .node nid sid _ _ _ c s => .node nid sid (copyTree c) (copyTree s)
+
+/-- `Tree.MakeTreeMarshal` -/
+def makeTreeMarshal (t : Tree) : TreeMarshal :=
+  match t.roster with
+  | none => { treeId := 0, rosterId := 0, children := .nil }
+  | some ro => { treeId := t.id, rosterId := ro.id, children := copyTree t.root }
+
+/-- why a description is refused -/
+inductive Err where
+  | noRoster | rosterId | notOneRoot | unknownServer | codec
+  deriving DecidableEq, Repr
+
+/-- `MakeTreeFromList` for a whole forest; `none` = a server is not in the roster.  Aggregates are
+filled in afterwards. -/
+def makeForest (ro : List Server) : TM → Option TN
+  | .nil => some .nil
+  | .node nid sid c s =>
+    match search ro sid, makeForest ro c, makeForest ro s with
+    | some (idx, e), some c', some s' => some (.node nid sid e.key idx 0 c' s')
+    | _, _, _ => none
+
+/-- `computeSubtreeAggregate` over a forest: the forest with every `PublicAggregateSubTree` set and
+the sum of the aggregates of its top-level nodes -/
+def aggregate : TN → TN × Nat
+  | .nil => (.nil, 0)
+  | .node nid sid key idx _ c s =>
+    let rc := aggregate c
+    let rs := aggregate s
+    (.node nid sid key idx (key + rc.2) rc.1 rs.1, key + rc.2 + rs.2)
+
+/-- `TreeMarshal.MakeTree` (tree.go:350-372) -/
+def makeTree (tm : TreeMarshal) (ro : Option Roster) : Except Err Tree :=
+  match ro with
+  | none => .error .noRoster
+  | some ro =>
+    if ro.id ≠ tm.rosterId then .error .rosterId
+    else if tm.children.len ≠ 1 then .error .notOneRoot
+    else match makeForest ro.list tm.children with
+      | none => .error .unknownServer
+      | some f => .ok { id := tm.treeId, roster := some ro, root := (aggregate f).1 }
+
+/-- `NewTree` for a tree put together locally with `NewTreeNode`/`AddChild`: the id is given (it is
+a hash, property C13), aggregates are computed -/
+def newTree (id : Nat) (ro : Roster) (root : TN) : Tree :=
+  { id := id, roster := some ro, root := (aggregate root).1 }
+
+/-- the wire codec for the two serialised forms (`network.Marshal`/`Unmarshal` of `TreeMarshal` and
+of `tbmStruct{T, Ro}`): a parameter; the theorems assume decoding inverts encoding -/
+structure Codec (B : Type) where
+  encTM  : TreeMarshal → B
+  decTM  : B → Option TreeMarshal
+  encTBM : B × Option Roster → B
+  decTBM : B → Option (B × Option Roster)
+
+/-- `Tree.Marshal` -/
+def marshal {B} (cd : Codec B) (t : Tree) : B := cd.encTM (makeTreeMarshal t)
+
+/-- `NewTreeFromMarshal` -/
+def newTreeFromMarshal {B} (cd : Codec B) (buf : B) (ro : Option Roster) : Except Err Tree :=
+  match cd.decTM buf with
+  | none => .error .codec
+  | some tm => makeTree tm ro
+
+/-- `Tree.BinaryMarshaler` -/
+def binaryMarshal {B} (cd : Codec B) (t : Tree) : B := cd.encTBM (marshal cd t, t.roster)
+
+/-- `Tree.BinaryUnmarshaler` -/
+def binaryUnmarshal {B} (cd : Codec B) (b : B) : Except Err Tree :=
+  match cd.decTBM b with
+  | none => .error .codec
+  | some (t, ro) => newTreeFromMarshal cd t ro
+
+/-! ### the overlay's tree store and the control-message handlers -/
+
+/-- `treeStorage.trees` and `Overlay.pendingTreeMarshal`, the rosters of the live protocol
+instances (`o.instances[*].Roster()`), and two ghost sets for the statements: every id ever
+requested, every id registered locally -/
+structure Ovl where
+  store   : List (Nat × Option Tree) := []
+  pending : List (Nat × List TreeMarshal) := []
+  insts   : List Roster := []
+  everReq : List Nat := []
+  locals  : List Nat := []
+  deriving DecidableEq, Repr
+
+def lookup {α} (l : List (Nat × α)) (k : Nat) : Option α :=
+  match l with
+  | [] => none
+  | (k', v) :: rest => if k' = k then some v else lookup rest k
+
+def insert {α} (l : List (Nat × α)) (k : Nat) (v : α) : List (Nat × α) :=
+  match l with
+  | [] => [(k, v)]
+  | (k', v') :: rest => if k' = k then (k, v) :: rest else (k', v') :: insert rest k v
+
+def erase {α} (l : List (Nat × α)) (k : Nat) : List (Nat × α) :=
+  l.filter fun p => p.1 ≠ k
+
+/-- `treeStorage.Get`: the tree, or nil when absent or only requested -/
+def Ovl.get (o : Ovl) (id : Nat) : Option Tree := (lookup o.store id).join
+/-- `treeStorage.IsRequested` -/
+def Ovl.isRequested (o : Ovl) (id : Nat) : Bool := lookup o.store id == some none
+/-- `treeStorage.IsRegistered` -/
+def Ovl.isRegistered (o : Ovl) (id : Nat) : Bool := (lookup o.store id).isSome
+
+/-- `Overlay.RegisterTree` = `treeStorage.Set` (parked protocol messages are property C01) -/
+def Ovl.setTree (o : Ovl) (t : Tree) : Ovl := { o with store := insert o.store t.id (some t) }
+
+/-- `treeStorage.GetRoster`: the roster of some stored tree with that roster id -/
+def Ovl.getRoster (o : Ovl) (rid : Nat) : Option Roster :=
+  o.store.findSome? fun p =>
+    match p.2 with
+    | some t => match t.roster with
+      | some ro => if ro.id = rid then some ro else none
+      | none => none
+    | none => none
+
+/-- what a peer can send -/
+inductive Msg where
+  | requestTree (treeId version : Nat)
+  | responseTree (tm : Option TreeMarshal) (ro : Option Roster)
+  | treeMarshal (tm : TreeMarshal)
+  | requestRoster (rosterId : Nat)
+  | sendRoster (ro : Roster)
+  deriving DecidableEq, Repr
+
+/-- what the server sends back to the peer -/
+inductive Out where
+  | responseTree (tm : TreeMarshal) (ro : Option Roster)
+  | treeMarshal (tm : TreeMarshal)
+  | requestRoster (rosterId : Nat)
+  | roster (ro : Option Roster)      -- `none`: the empty `&Roster{}`
+  deriving DecidableEq, Repr
+
+/-- `handleSendTree` (overlay.go:508-535) -/
+def handleSendTree (o : Ovl) (tm : Option TreeMarshal) (ro : Option Roster) : Ovl :=
+  match tm with
+  | none => o
+  | some tm =>
+    if tm.treeId = 0 then o
+    else match ro with
+      | none => o
+      | some ro =>
+        if !o.isRequested tm.treeId then o
+        else match makeTree tm (some ro) with
+          | .error _ => o
+          | .ok t => o.setTree t
+
+/-- one description in the loop of `checkPendingTreeMarshal`: skipped when its tree is present or
+cannot be built, stored otherwise -/
+def pendStep (ro : Roster) (o : Ovl) (tm : TreeMarshal) : Ovl :=
+  if (o.get tm.treeId).isSome then o
+  else match makeTree tm (some ro) with
+    | .error _ => o
+    | .ok t => o.setTree t
+
+/-- `checkPendingTreeMarshal` (overlay.go:291-318, after 6793864): every description parked for the
+roster id is tried, then they are forgotten -/
+def checkPending (o : Ovl) (ro : Roster) : Ovl :=
+  match lookup o.pending ro.id with
+  | none => o
+  | some sl =>
+    let o' := sl.foldl (pendStep ro) o
+    { o' with pending := erase o'.pending ro.id }
+
+/-- `Overlay.Process` for the five tree/roster control messages: new state and what is sent back -/
+def handle (o : Ovl) : Msg → Ovl × List Out
+  | .requestTree id version =>
+    match o.get id with
+    | none => (o, [])
+    | some t =>
+      if version = 0 then (o, [.treeMarshal (makeTreeMarshal t)])
+      else (o, [.responseTree (makeTreeMarshal t) t.roster])
+  | .responseTree tm ro => (handleSendTree o tm ro, [])
+  | .treeMarshal tm =>
+    if tm.treeId = 0 then (o, [])
+    else if !o.isRequested tm.treeId then (o, [])
+    else match (o.insts.filter fun r => r.id = tm.rosterId).getLast? with
+      | none =>
+        ({ o with pending := insert o.pending tm.rosterId ((lookup o.pending tm.rosterId).getD [] ++ [tm]) },
+          [.requestRoster tm.rosterId])
+      | some ro => (handleSendTree o (some tm) (some ro), [])
+  | .requestRoster rid => (o, [.roster (o.getRoster rid)])
+  | .sendRoster ro => if ro.id = 0 then (o, []) else (checkPending o ro, [])
+
+/-- what happens locally -/
+inductive Local where
+  | request (id : Nat)        -- `requestTree`: `treeStorage.Register` before the request is sent
+  | unrequest (id : Nat)      -- the request could not be sent: `treeStorage.Unregister`
+  | register (t : Tree)       -- `RegisterTree` of a tree made on this server
+  | instance (t : Tree)       -- `CreateProtocol`: registers the tree, the instance's roster is live
+  | expire (id : Nat)         -- the grace period of a finished tree is over (treestorage.go:123-127)
+  deriving DecidableEq, Repr
+
+def localStep (o : Ovl) : Local → Ovl
+  | .request id =>
+    { o with store := if (lookup o.store id).isSome then o.store else insert o.store id none,
+             everReq := id :: o.everReq }
+  | .unrequest id =>
+    if o.isRequested id then { o with store := erase o.store id } else o
+  | .register t => { o.setTree t with locals := t.id :: o.locals }
+  | .instance t =>
+    match t.roster with
+    | some ro => { o.setTree t with locals := t.id :: o.locals, insts := o.insts ++ [ro] }
+    | none => o
+  | .expire id => { o with store := erase o.store id }
+
+/-- one event of a server's history -/
+inductive Ev where
+  | peer (m : Msg)
+  | loc (l : Local)
+  deriving DecidableEq, Repr
+
+def stepEv (o : Ovl) : Ev → Ovl
+  | .peer m => (handle o m).1
+  | .loc l => localStep o l
+
+def runEv (o : Ovl) (evs : List Ev) : Ovl := evs.foldl stepEv o
+
+/-! ### line-protocol driver -/
 namespace Drv
-/-- line-protocol driver state for C06 -/
-abbrev State := Unit
-def init : State := ()
-/-- one line in (tokens after the property prefix), new state and one line out -/
-def step (s : State) (_toks : List String) : State × String := (s, "bad-op")
+
+/-- rosters and trees defined so far (by label), the overlay under test -/
+structure State where
+  rosters : List (Nat × Roster) := []
+  trees   : List (Nat × Tree) := []
+  ovl     : Ovl := {}
+
+def init : State := {}
+
+/-- the codec of the driver: the serialised form is the value itself -/
+inductive Wire where
+  | tm (t : TreeMarshal)
+  | tbm (w : Wire) (ro : Option Roster)
+
+def wireCodec : Codec Wire :=
+  { encTM := .tm
+    decTM := fun w => match w with | .tm t => some t | _ => none
+    encTBM := fun p => .tbm p.1 p.2
+    decTBM := fun w => match w with | .tbm w ro => some (w, ro) | _ => none }
+
+def showTN : TN → List String
+  | .nil => []
+  | .node nid sid key idx agg c s =>
+    let kids := showTN c
+    let arity := (copyTree c).len
+    (s!"{nid}/{sid}/{key}/{idx}/{agg}:{arity}" :: kids) ++ showTN s
+
+def showRoster (ro : Roster) : String :=
+  s!"R{ro.id}[" ++ ",".intercalate (ro.list.map fun s => s!"{s.sid}/{s.key}") ++ s!"]#{ro.tag}"
+
+def showTree (t : Tree) : String :=
+  s!"T{t.id} " ++ (match t.roster with | none => "R-" | some ro => showRoster ro) ++ " " ++
+    ",".intercalate (showTN t.root)
+
+def showErr : Err → String
+  | .noRoster => "err:no-roster"
+  | .rosterId => "err:roster-id"
+  | .notOneRoot => "err:not-one-root"
+  | .unknownServer => "err:unknown-server"
+  | .codec => "err:codec"
+
+def showRes : Except Err Tree → String
+  | .ok t => showTree t
+  | .error e => showErr e
+
+def showTMf : TM → List String
+  | .nil => []
+  | .node nid sid c s => (s!"{nid}/{sid}:{c.len}" :: showTMf c) ++ showTMf s
+
+def showTM (tm : TreeMarshal) : String :=
+  s!"T{tm.treeId},R{tm.rosterId},{tm.children.len};" ++ ",".intercalate (showTMf tm.children)
+
+def showOut : Out → String
+  | .responseTree tm ro => "resptree(" ++ showTM tm ++ " " ++ (match ro with | none => "nil" | some r => showRoster r) ++ ")"
+  | .treeMarshal tm => "tm(" ++ showTM tm ++ ")"
+  | .requestRoster rid => s!"reqroster({rid})"
+  | .roster ro => "roster(" ++ (match ro with | none => "empty" | some r => showRoster r) ++ ")"
+
+def sortPairs {α} (l : List (Nat × α)) : List (Nat × α) :=
+  (l.toArray.qsort fun a b => a.1 < b.1).toList
+
+def showStore (o : Ovl) : String :=
+  let st := (sortPairs o.store).map fun (id, t) =>
+    match t with
+    | none => s!"{id}:requested"
+    | some t => s!"{id}:<" ++ showTree t ++ ">"
+  let pd := (sortPairs o.pending).map fun (rid, l) => s!"{rid}:" ++ "+".intercalate (l.map fun tm => toString tm.treeId)
+  "store{" ++ " ".intercalate st ++ "} pending{" ++ " ".intercalate pd ++ "}"
+
+/-- pre-order `a/b:arity` items → forest of `n` trees; `mk` builds a node from `a`, `b` -/
+def parseForestWith {F} (nil : F) (mk : Nat → Nat → F → F → Option F) :
+    (fuel n : Nat) → List (Nat × Nat × Nat) → Option (F × List (Nat × Nat × Nat))
+  | _, 0, l => some (nil, l)
+  | 0, _ + 1, _ => none
+  | fuel + 1, n + 1, (a, b, ar) :: l =>
+      match parseForestWith nil mk fuel ar l with
+      | some (c, l1) =>
+          match parseForestWith nil mk fuel n l1 with
+          | some (s, l2) => (mk a b c s).map fun f => (f, l2)
+          | none => none
+      | none => none
+  | _ + 1, _ + 1, [] => none
+
+/-- `a/b:arity` -/
+def parseItem (s : String) : Option (Nat × Nat × Nat) :=
+  match s.splitOn ":" with
+  | [ab, ar] =>
+    match ab.splitOn "/" with
+    | [a, b] => do some ((← a.toNat?), (← b.toNat?), (← ar.toNat?))
+    | _ => none
+  | _ => none
+
+def parseItems (s : String) : Option (List (Nat × Nat × Nat)) :=
+  if s = "-" then some [] else (s.splitOn ",").mapM parseItem
+
+/-- `<letter><number>` -/
+def tagged (c : Char) (s : String) : Option Nat :=
+  match s.toList with
+  | c' :: rest => if c' = c then (String.ofList rest).toNat? else none
+  | [] => none
+
+/-- `T<tid>,R<rid>,<k>;<items>`: an explicit tree description with `k` top-level children -/
+def parseTM (s : String) : Option TreeMarshal :=
+  match s.splitOn ";" with
+  | [hd, items] =>
+    match hd.splitOn "," with
+    | [t, r, k] =>
+      match tagged 'T' t, tagged 'R' r, k.toNat?, parseItems items with
+      | some tid, some rid, some k, some l =>
+        match parseForestWith TM.nil (fun a b c s => some (TM.node a b c s)) (l.length + 1) k l with
+        | some (f, []) => some { treeId := tid, rosterId := rid, children := f }
+        | _ => none
+      | _, _, _, _ => none
+    | _ => none
+  | _ => none
+
+/-- `s/k` server items -/
+def parseServers (s : String) : Option (List Server) :=
+  if s = "-" then some [] else
+  (s.splitOn ",").mapM fun it =>
+    match it.splitOn "/" with
+    | [a, b] => do some { sid := (← a.toNat?), key := (← b.toNat?) }
+    | _ => none
+
+def optRoster (st : State) (s : String) : Option (Option Roster) :=
+  if s = "nil" then some none else (s.toNat?.bind fun l => lookup st.rosters l).map some
+
+def step (st : State) (toks : List String) : State × String :=
+  match toks with
+  -- `roster <label> <id> <tag> <sid/key,…>`
+  | ["roster", l, id, tag, servers] =>
+    match l.toNat?, id.toNat?, tag.toNat?, parseServers servers with
+    | some l, some id, some tag, some sv =>
+      ({ st with rosters := insert st.rosters l { id := id, list := sv, tag := tag } }, "ok")
+    | _, _, _, _ => (st, "bad-op")
+  -- `tree <label> <tree id> <roster label> <member position/node id:arity,…>`: NewTreeNode + NewTree
+  | ["tree", l, tid, r, items] =>
+    match l.toNat?, tid.toNat?, r.toNat?.bind (lookup st.rosters), parseItems items with
+    | some l, some tid, some ro, some its =>
+      let mk := fun (pos nid : Nat) (c s : TN) =>
+        (ro.list[pos]?).map fun e => TN.node nid e.sid e.key pos 0 c s
+      match parseForestWith TN.nil mk (its.length + 1) 1 its with
+      | some (f, []) =>
+        let t := newTree tid ro f
+        ({ st with trees := insert st.trees l t }, showTree t)
+      | _ => (st, "bad-op")
+    | _, _, _, _ => (st, "bad-op")
+  -- `marshal-rt <tree label> <roster label | nil>`: Marshal, NewTreeFromMarshal
+  | ["marshal-rt", l, r] =>
+    match l.toNat?.bind (lookup st.trees), optRoster st r with
+    | some t, some ro => (st, showRes (newTreeFromMarshal wireCodec (marshal wireCodec t) ro))
+    | _, _ => (st, "bad-op")
+  -- `binary-rt <tree label>`: BinaryMarshaler, BinaryUnmarshaler
+  | ["binary-rt", l] =>
+    match l.toNat?.bind (lookup st.trees) with
+    | some t => (st, showRes (binaryUnmarshal wireCodec (binaryMarshal wireCodec t)))
+    | none => (st, "bad-op")
+  -- `maketree <description> <roster label | nil>`
+  | ["maketree", d, r] =>
+    match parseTM d, optRoster st r with
+    | some tm, some ro => (st, showRes (makeTree tm ro))
+    | _, _ => (st, "bad-op")
+  -- history: local actions
+  | ["h.request", id] =>
+    match id.toNat? with
+    | some id => let o := localStep st.ovl (.request id); ({ st with ovl := o }, showStore o)
+    | none => (st, "bad-op")
+  | ["h.unrequest", id] =>
+    match id.toNat? with
+    | some id => let o := localStep st.ovl (.unrequest id); ({ st with ovl := o }, showStore o)
+    | none => (st, "bad-op")
+  | ["h.expire", id] =>
+    match id.toNat? with
+    | some id => let o := localStep st.ovl (.expire id); ({ st with ovl := o }, showStore o)
+    | none => (st, "bad-op")
+  | ["h.register", l] =>
+    match l.toNat?.bind (lookup st.trees) with
+    | some t => let o := localStep st.ovl (.register t); ({ st with ovl := o }, showStore o)
+    | none => (st, "bad-op")
+  | ["h.instance", l] =>
+    match l.toNat?.bind (lookup st.trees) with
+    | some t => let o := localStep st.ovl (.instance t); ({ st with ovl := o }, showStore o)
+    | none => (st, "bad-op")
+  -- history: messages from a peer
+  | "h.msg" :: rest =>
+    let m : Option Msg :=
+      match rest with
+      | ["reqtree", id, v] => do some (.requestTree (← id.toNat?) (← v.toNat?))
+      | ["resptree", d, r] =>
+        (if d = "nil" then some none else (parseTM d).map some).bind fun tm =>
+          (optRoster st r).map fun ro => .responseTree tm ro
+      | ["tm", d] => (parseTM d).map .treeMarshal
+      | ["reqroster", rid] => rid.toNat?.map .requestRoster
+      | ["roster", r] => (r.toNat?.bind (lookup st.rosters)).map .sendRoster
+      | _ => none
+    match m with
+    | some m =>
+      let (o, outs) := handle st.ovl m
+      ({ st with ovl := o },
+        "out[" ++ " ".intercalate (outs.map showOut) ++ "] " ++ showStore o)
+    | none => (st, "bad-op")
+  -- `propagate <member:arity,…> <pre-order index of the receiving node> <mem|tcp>`: a tree over six servers,
+  -- known to the root's server; the receiving node's server requests it and handles the answer
+  | ["propagate", desc, target, transport] =>
+    -- the transport (in-memory or TCP) does not exist in the model: both carry the same messages
+    if transport ≠ "mem" ∧ transport ≠ "tcp" then (st, "bad-op") else
+    let items : Option (List (Nat × Nat × Nat)) := (desc.splitOn ",").mapM fun it =>
+      match it.splitOn ":" with
+      | [m, a] => do some ((← m.toNat?), (← m.toNat?), (← a.toNat?))
+      | _ => none
+    match items, target.toNat? with
+    | some its, some tg =>
+      let ro : Roster := { id := 1, list := (List.range 6).map fun s => { sid := s, key := s + 1 } }
+      if its.any (fun it => it.1 ≥ 6) ∨ tg = 0 ∨ tg ≥ its.length then (st, "bad-op") else
+      if (its[tg]?.map (·.1)) = (its[0]?.map (·.1)) then (st, "bad-op") else
+      let mk := fun (pos nid : Nat) (c s : TN) => (ro.list[pos]?).map fun e => TN.node nid e.sid e.key pos 0 c s
+      match parseForestWith TN.nil mk (its.length + 1) 1 its with
+      | some (f, []) =>
+        let t := newTree 1 ro f
+        let sender := localStep {} (.instance t)
+        let receiver := localStep {} (.request 1)
+        let outs := (handle sender (.requestTree 1 1)).2
+        let receiver := outs.foldl (fun o out =>
+          match out with
+          | .responseTree tm r => (handle o (.responseTree (some tm) r)).1
+          | _ => o) receiver
+        (st, match receiver.get 1 with
+          | some t' => if t' = t then "learnt:same" else "learnt:differs"
+          | none => "learnt:none")
+      | _ => (st, "bad-op")
+    | _, _ => (st, "bad-op")
+  | _ => (st, "bad-op")
+
 end Drv
 
 end C06
